@@ -13,6 +13,9 @@ use std::sync::Arc;
 
 use stateright::{Checker, Model, Property};
 
+/// wall-clock budget of one breadth-first search in seconds (set by main according to the tier)
+pub static BFS_BUDGET_S: std::sync::atomic::AtomicU64 = std::sync::atomic::AtomicU64::new(20);
+
 /// Wrapper giving a real object (Debug + PartialEq via the hooks) a `Hash` based on its complete
 /// Debug rendering.  The rendering is only used as an identity, never parsed.
 #[derive(Clone, Debug)]
@@ -94,6 +97,7 @@ pub fn bfs<Y: Sys>(sys: &Y, keep_edges: bool, max_states: usize) -> Graph<Y> {
         capped: false,
         expanded: 0,
     };
+    let started = std::time::Instant::now();
     let mut index: HashMap<Y::S, usize> = HashMap::new();
     let init = sys.init();
     index.insert(init.clone(), 0);
@@ -106,6 +110,12 @@ pub fn bfs<Y: Sys>(sys: &Y, keep_edges: bool, max_states: usize) -> Graph<Y> {
         // stop at the state cap - or once 5000 violating edges have been recorded: the search is breadth-first, so those
         // are the shallowest ones, and a tree that broken would otherwise be explored to the cap for nothing
         if g.states.len() > max_states || g.bads.len() >= 5000 {
+            g.capped = true;
+            break;
+        }
+        // wall-clock budget per search (20 s quick, 120 s thorough; the searches on the tree as it is take < 2 s): a changed
+        // tree with many large states ends as "capped, not exhaustive" with what was found instead of hitting vcheck's kill
+        if head % 256 == 0 && started.elapsed().as_secs() >= BFS_BUDGET_S.load(std::sync::atomic::Ordering::Relaxed) {
             g.capped = true;
             break;
         }
@@ -197,14 +207,21 @@ pub fn stateright_bfs<Y: Sys>(sys: Arc<Y>, max_states: usize) -> SrResult {
 
 /// Run both explorers and compare. Returns the graph and a list of disagreements (machinery errors).
 pub fn explore_both<Y: Sys>(sys: Arc<Y>, keep_edges: bool, max_states: usize) -> (Graph<Y>, SrResult, Vec<String>) {
+    let t0 = std::time::Instant::now();
     let g = bfs(&*sys, keep_edges, max_states);
-    let sr = if g.capped {
-        SrResult { unique_states: 0, generated: 0, max_depth: 0, counterexample: None }
+    // The stateright run is a cross-check of the explorer itself; it matters on the tree as it is (small state spaces,
+    // sub-second). On a changed tree whose states are many or large the own BFS alone can take tens of seconds; the
+    // cross-check is then skipped so that the check still ends within its wall-clock budget with its findings.
+    let slow = t0.elapsed().as_secs_f64() > 10.0;
+    let sr = if g.capped || slow {
+        SrResult { unique_states: if slow && !g.capped { g.states.len() } else { 0 }, generated: 0, max_depth: 0, counterexample: None }
     } else {
         stateright_bfs(sys.clone(), max_states)
     };
     let mut errs = vec![];
-    if g.capped {
+    if slow && !g.capped {
+        // no cross-check: nothing to compare
+    } else if g.capped {
         // the subject's reachable state space is far larger than the reference model's: the search is not
         // closed (the caller reports the cap; violations found so far are real - BFS order: shallowest first)
     } else if g.bads.is_empty() {
